@@ -129,11 +129,11 @@ def _tank_memory_case(how, attr):
             holder = []
 
             def make(t, a, r, v):
-                c = C.TankLevelCondition(t, a, r, v)
+                c = C.ValueCondition(t, a, r, v)        # the public constructor: dispatches to TankLevelCondition for a tank's level / head / pressure
                 holder.append(c)
                 return c
             cx.target(make, tank, attr, Comparison.le, th)
-            cx.interp.interpret_always = tuple(cx.interp.interpret_always) + (make, C.TankLevelCondition)
+            cx.interp.interpret_always = tuple(cx.interp.interpret_always) + (make, C.TankLevelCondition, C.ValueCondition)
         else:
             cond = cx.obj(C.TankLevelCondition, _source_obj=tank, _source_attr=attr, _relation=Comparison.le, _threshold=th, _backtrack=cx.int("stale_backtrack"),
                           _last_value=cx.real("stale_last_value"))
@@ -143,10 +143,13 @@ def _tank_memory_case(how, attr):
             if not out.returned:
                 return []
             c = out.value if how == "init" else cond
+            if how == "init" and getattr(c, "cls", type(c)) is not C.TankLevelCondition:
+                return [("a_condition_on_a_tank_s_level_head_or_pressure_is_a_tank_level_condition_with_crossing_memory_and_partial_steps", False)]
             lv = cx.interp.getattr(c, "_last_value")
             want = cx.t(head) if attr == "head" else cx.t(head) - cx.t(elev)
             posts = [("crossing_memory_starts_at_the_current_value_of_the_watched_attribute", library.as_real(lv) == want)]
             if how == "init":
+                posts.append(("a_condition_on_a_tank_s_level_head_or_pressure_is_a_tank_level_condition_with_crossing_memory_and_partial_steps", True))
                 posts.append(("watches_what_it_was_told_to", cx.interp.getattr(c, "_source_obj") is tank and cx.interp.getattr(c, "_source_attr") == attr))
             return posts
         cx.ensure(post)
